@@ -259,6 +259,10 @@ class Generator:
             if s.startswith("//@valid "):
                 spec.valid = s[len("//@valid "):].strip()
                 cur = None
+            elif s == "//@np":
+                # combined N/P mode: the function's own argument checks become rt_assert(e, Ghost(strict()))
+                spec.valid = "strict()"
+                cur = None
             elif s.startswith("//@panic_state "):
                 spec.panic_state = s[len("//@panic_state "):].strip()
                 cur = None
@@ -303,6 +307,10 @@ class Generator:
         b = sf.ct[it.end].end
         toks = [t for t in sf.toks if t.start >= a and t.end <= b and t.kind != "doc"]
         text = text_of(toks)
+        # R0: modules are flattened into the crate root, so `pub(super)` (= crate-visible) becomes `pub(crate)`
+        text, nvis = re.subn(r"pub\s*\(\s*super\s*\)", "pub(crate)", text)
+        if nvis:
+            self.count("R0-pub(super)", nvis)
         # drop field attributes (none in this crate, but be safe)
         self.count("R0-struct")
         self.structs.append({"name": name, "file": fname, "line": it.line,
@@ -467,8 +475,9 @@ class Generator:
         else:
             rest_txt = tight(rest_txt)
         head = tight(norm_tokens(toks[:p]))
-        if spec.opts.get("vis"):
-            head = re.sub(r"^pub\s*\(\s*super\s*\)\s*", "pub ", head)
+        head, nvis = re.subn(r"^pub\s*\(\s*super\s*\)\s*", "pub(crate) ", head)
+        if nvis:
+            self.count("R0-pub(super)", nvis)
         return "%s(%s) %s" % (head, ", ".join(tight(x) for x in newparams), rest_txt)
 
     def param_prologue(self, header, spec):
